@@ -3,7 +3,8 @@
    fix_accept / fix_first = false: ppci/lang/tools/lr.py as it is; = true: with the repairs
    fixes/C32-accept-recursive-start.diff / fixes/C32-lookahead-nullable.diff. *)
 From PV Require Import Lib.Py Spec.CfgGrammarSpec Model.LrValidator Model.LrBuilder
-                       Proofs.C32_sound Proofs.C32_complete.
+                       Proofs.C32_sound Proofs.C32_complete Proofs.C32_safe
+                       Model.LrComplete Proofs.C32_cert.
 Open Scope Z_scope.
 
 (* Soundness, unbounded: for ANY grammar, ANY tables that pass the validator, any token sequence
@@ -44,6 +45,42 @@ Theorem c32_accept_refuted :
 Proof. exact c32_accept_refuted_lemma. Qed.
 Print Assumptions c32_accept_refuted.
 
+(* Safety, unbounded: on validated tables the parser model never ends in an internal error
+   (KeyError on the goto table, IndexError on a stack pop, unbound result), whatever the input. *)
+Theorem c32_safe : forall fix_accept g T w fuel e,
+  tables_ok fix_accept g T = true -> parse_model fix_accept fuel g T w <> Internal e.
+Proof. exact c32_safe_lemma. Qed.
+Print Assumptions c32_safe.
+
+(* Termination, unbounded over inputs: if the tables also pass the termination-certificate check
+   [term_ok] (state weights + (state, look-ahead) ranks such that every reduction strictly decreases
+   the potential of the stack), the parser never needs more than
+   fuel_for c |w| = (|w| + 1) * (cert_bound c + 1) steps: no infinite reduce loop. *)
+Theorem c32_terminates : forall fix_accept g T c w fuel,
+  tables_ok fix_accept g T = true -> term_ok fix_accept g T c = true ->
+  (fuel_for c (length w) <= fuel)%nat ->
+  parse_model fix_accept fuel g T w <> OutOfFuel.
+Proof. exact c32_terminates_lemma. Qed.
+Print Assumptions c32_terminates.
+
+(* Together: with that fuel the parser returns a parse tree of the input or raises ParserException. *)
+Theorem c32_total : forall fix_accept g T c w,
+  tables_ok fix_accept g T = true -> term_ok fix_accept g T c = true -> ~ In EOF w ->
+  (exists v, parse_model fix_accept (fuel_for c (length w)) g T w = Ok v /\ parse_of g w v) \/
+  (exists d, parse_model fix_accept (fuel_for c (length w)) g T w = Diag d).
+Proof. exact c32_total_lemma. Qed.
+Print Assumptions c32_total.
+
+(* Completeness per instance, for ALL words (Jourdan-Pottier-Leroy style certificate): if the tables
+   validate and the exported item sets pass [complete_cert] (FIRST/nullable hints closed, start items in
+   state 0, every state closed, every item served by a shift/goto/reduce/accept entry), the repaired
+   parser accepts every sentence of the grammar, with some fuel, and returns a parse tree of it. *)
+Theorem c32_complete_tables : forall g T I w,
+  tables_ok true g T = true -> complete_cert g T I = true -> sentence g w -> ~ In EOF w ->
+  exists fuel v, parse_model true fuel g T w = Ok v /\ parse_of g w v.
+Proof. exact c32_complete_tables_lemma. Qed.
+Print Assumptions c32_complete_tables.
+
 (* hypotheses are inhabited: the repaired builder model on S -> A B c; A -> a; B -> eps | b gives
    tables that validate and parse "a c" *)
 Example c32_nonvacuous :
@@ -53,4 +90,13 @@ Proof.
   destruct (generate_tables_sr true BFUEL g_la) as [[T sr]| | |] eqn:E; try (vm_compute in E; discriminate).
   exists T. vm_compute in E. injection E as <- <-.
   split; [reflexivity|]. split; vm_compute; reflexivity.
+Qed.
+
+(* the termination certificate check is satisfiable on those tables *)
+Example c32_term_nonvacuous :
+  exists T c, generate_tables_sr true BFUEL g_la = Ok (T, false) /\ term_ok true g_la T c = true.
+Proof.
+  destruct (generate_tables_sr true BFUEL g_la) as [[T sr]| | |] eqn:E; try (vm_compute in E; discriminate).
+  exists T, (mkTcert [(1, 1%nat); (2, 8%nat); (3, 1%nat); (4, 8%nat); (5, 8%nat)] [((1, 6), 2%nat)]).
+  vm_compute in E. injection E as <- <-. split; [reflexivity|vm_compute; reflexivity].
 Qed.
